@@ -87,7 +87,11 @@ pub fn generate(focus: Focus, seed: u64, run: u64, _tier: Tier, st: &mut Stats) 
             }
         }
     };
-    let swarm = Swarm::draw(&mut rw, storage);
+    let mut swarm = Swarm::draw(&mut rw, storage);
+    if mode == "junk" {
+        // C06.c's precondition: the pattern occurs at record starts only
+        swarm.embed_magic_pct = 0;
+    }
     let mut notes = vec![];
     let mut aux: Vec<u64> = vec![rs.next_u64() >> 16];
     let medium: Medium;
@@ -464,6 +468,8 @@ struct Sc<'a> {
     verdict_at: Vec<usize>,
     stopped: bool,
     h: Fnv,
+    /// search comparisons made on buffers longer than 4 KiB (bounded per run: the naive search is slow)
+    big_searches: u32,
 }
 
 /// record start the parser will look at from `from` (independent: naive search / identity)
@@ -485,7 +491,12 @@ impl<'a> Sc<'a> {
             }
             let input = &self.buf[self.pos..];
             // C06.a on every buffer the consumer holds
-            if self.storage && (focus == Focus::C06 || focus == Focus::C03) && input.len() <= 4096 {
+            let big = input.len() > 4096;
+            if self.storage && (focus == Focus::C06 || focus == Focus::C03) && (!big || (self.big_searches < 6 && input.len() <= 300_000)) {
+                if big {
+                    self.big_searches += 1;
+                    st.inc("search_calls_big_buffer");
+                }
                 st.inc("search_calls");
                 let exp = naive_find(input);
                 match guarded(|| forward_to_next_storage_header(input).map(|(n, rest)| (n, rest.len(), rest.as_ptr() as usize))) {
@@ -673,7 +684,7 @@ fn run_sc<'a>(
     };
     let core = Rc::new(RefCell::new(Core::new(data.clone(), case.script.clone(), policy, rng)));
     let mut src = ScriptedRead(core.clone());
-    let mut sc = Sc { storage: case.storage, filter, declared_skip, buf: Vec::with_capacity(data.len()), pos: 0, oks: vec![], items: vec![], verdict_at: vec![], stopped: false, h: Fnv::default() };
+    let mut sc = Sc { storage: case.storage, filter, declared_skip, buf: Vec::with_capacity(data.len()), pos: 0, oks: vec![], items: vec![], verdict_at: vec![], stopped: false, h: Fnv::default(), big_searches: 0 };
     let mut tmp = vec![0u8; 70_000];
     loop {
         let n = match src.read(&mut tmp) {
@@ -999,14 +1010,13 @@ pub fn execute(case: &StreamCase, focus: Focus, st: &mut Stats) -> Exec {
         }
         if sound {
             // C06.b: junk ++ m ++ s parses like m ++ s (two runs of the real parser)
+            let drop_all = crate::case::FilterSpec { min_log_level: None, app_ids: Some(vec![]), ecu_ids: None, context_ids: None, app_id_count: 1, context_id_count: 0 }.processed();
             let mut prev_end = 0usize;
             for (i, s0) in starts.iter().enumerate() {
                 if *s0 > prev_end {
                     st.inc("junk_blocks_judged");
                     let with_junk = &data[prev_end..];
                     let without = &data[*s0..];
-                    let a = guarded(|| dlt_message(with_junk, None, true).map(|(rest, pm)| (rest.len(), pm)));
-                    let b = guarded(|| dlt_message(without, None, true).map(|(rest, pm)| (rest.len(), pm)));
                     let canon = |x: &Result<Result<(usize, ParsedMessage), DltParseError>, String>| -> String {
                         match x {
                             Err(p) => format!("PANIC {}", p),
@@ -1018,8 +1028,19 @@ pub fn execute(case: &StreamCase, focus: Focus, st: &mut Stats) -> Exec {
                             }
                         }
                     };
-                    if canon(&a) != canon(&b) {
-                        v.push(Violation::new("C06.b", "junk-changes-result", format!("record {}: with {} junk bytes in front: {}, alone: {}", i, s0 - prev_end, canon(&a), canon(&b))));
+                    // without a filter, with the run's filter, and with a filter that drops everything
+                    for (fname, f) in [("no filter", None), ("the run's filter", filter.as_ref()), ("a filter that drops everything", Some(&drop_all))] {
+                        if fname == "the run's filter" && f.is_none() {
+                            continue;
+                        }
+                        let a = guarded(|| dlt_message(with_junk, f, true).map(|(rest, pm)| (rest.len(), pm)));
+                        let b = guarded(|| dlt_message(without, f, true).map(|(rest, pm)| (rest.len(), pm)));
+                        if canon(&a) != canon(&b) {
+                            v.push(Violation::new("C06.b", "junk-changes-result", format!("record {} ({}): with {} junk bytes in front: {}, alone: {}", i, fname, s0 - prev_end, canon(&a), canon(&b))));
+                            break;
+                        }
+                    }
+                    if !v.is_empty() {
                         break;
                     }
                 }
@@ -1043,6 +1064,23 @@ pub fn execute(case: &StreamCase, focus: Focus, st: &mut Stats) -> Exec {
                 st.add("junk_records_expected", expect.len() as u64);
                 if got.len() != expect.len() || got.iter().zip(expect.iter()).any(|(a, b)| *a != b) {
                     v.push(Violation::new("C06.c", "records-not-recovered", format!("{} records recovered at {:?}, {} expected from starts {:?} (delivered {} bytes)", got.len(), sc.oks.iter().map(|(p, c, _)| (*p, *c)).collect::<Vec<_>>(), expect.len(), starts, eff_len)));
+                }
+            }
+            // C06.c with a filter: a second consumer over the same delivery; every record, kept or
+            // filtered out, is found where the consumer without filter found it
+            // (only when every delivered record parses without filter: what the parser thinks of
+            // a record the writer produced is not C06's business)
+            let delivered = starts.iter().enumerate().filter(|(i, _)| ends[*i] <= eff_len).count();
+            if v.is_empty() && !sc.stopped && sc.oks.len() == delivered {
+                let f = filter.as_ref().unwrap_or(&drop_all);
+                let mut v2 = vec![];
+                let (s2, _) = run_sc(case, &data, Some(f), false, Focus::C06, None, &mut v2, st);
+                v.extend(v2.into_iter().filter(|x| x.clause.starts_with("C06")));
+                st.inc("junk_filtered_consumers");
+                let a: Vec<(usize, usize)> = sc.oks.iter().map(|(p, c, _)| (*p, *c)).collect();
+                let b: Vec<(usize, usize)> = s2.oks.iter().map(|(p, c, _)| (*p, *c)).collect();
+                if v.is_empty() && !s2.stopped && a != b {
+                    v.push(Violation::new("C06.c", "filter-changes-recovery", format!("without filter the records are found at (offset, consumed) {:?}, with a filter at {:?}", a, b)));
                 }
             }
         }
